@@ -201,6 +201,10 @@ func checkC11() fw.Check {
 					cases = append(cases, fw.Case{ID: fmt.Sprintf("C11/request-default-shape/%d", j), Bubble: true, Run: func(c *fw.Ctx) { runC11Request(c, c.ID, j) }})
 				}
 			}
+			for i := 0; i < max(2, nreq/4); i++ {
+				i := i
+				cases = append(cases, fw.Case{ID: fmt.Sprintf("C11/foreign-reply-burst/%d", i), Bubble: true, Run: func(c *fw.Ctx) { runC11ForeignBurst(c, c.ID, i) }})
+			}
 			for _, base := range []uint32{0, 0xfff0, 0xffffff00, 0x7fffff00} {
 				base := base
 				cases = append(cases, fw.Case{ID: fmt.Sprintf("C11/alloc/ipid/%#x", base), Run: func(c *fw.Ctx) { runC11AllocIPID(c, c.ID, base, allocN) }})
@@ -338,6 +342,83 @@ func runC11Multi(c *fw.Ctx, id string) {
 	}
 	c.Count("concurrent_runs", k)
 	c.Sample(map[string]any{"case": tag, "runs": len(doc.Traceroute.Runs), "first_run": fmtHops(&doc.Traceroute.Runs[0])})
+}
+
+// runC11ForeignBurst: one short run that listens for its whole timeout (its path never reaches the target) next to
+// six or seven long runs of the same protocol to the same target whose answers all arrive, back to back, while the
+// short run is still listening: dozens of well-formed replies that belong to other runs in a row, none of its own in
+// between. Each run must still succeed and report exactly its own flow.
+func runC11ForeignBurst(c *fw.Ctx, id string, i int) {
+	c11Mu.RLock()
+	defer c11Mu.RUnlock()
+	r := c.Rng
+	vn := []string{"icmp4", "sackR", "icmp6", "udp4"}[i%4]
+	v := refmatch.VariantByName(vn)
+	k := 7 + r.Intn(2)
+	longLast := 7 + r.Intn(3)
+	var specs []drive.Spec
+	for j := 0; j < k; j++ {
+		first, last := 1, longLast
+		if j == 0 {
+			first, last = 2, 3 // a handle is told apart by the TTL of its first probe
+		}
+		sp := defaultSpec(v, c.Worker*8, first, last)
+		sp.Timeout = 900 * time.Millisecond
+		if v.Proto == "sack" {
+			sp.Port = uint16(22000 + c.Worker)
+		}
+		specs = append(specs, sp)
+	}
+	env, err := newMultiEnv(c, specs)
+	if err != nil {
+		c.Inconclusive(err.Error())
+		return
+	}
+	defer env.close()
+	defer env.closePeers()
+	env.modelFor = func(kf int, e *simEnv) *pathModel {
+		if int(e.spec.MinTTL) == 2 {
+			return flowPath(kf, e, 12, false, 2*time.Millisecond)
+		}
+		return flowPath(kf, e, int(e.spec.MaxTTL), true, time.Duration(40+kf*4)*time.Millisecond)
+	}
+	results := make([]drive.Result, k)
+	var wg sync.WaitGroup
+	for j := range specs {
+		wg.Add(1)
+		j := j
+		go func() {
+			defer wg.Done()
+			results[j] = drive.Run(specs[j])
+		}()
+	}
+	wg.Wait()
+	tag := fmt.Sprintf("%s %s K=%d long=1..%d", id, vn, k, longLast)
+	doc := &result.Results{}
+	answered := 0
+	for j, res := range results {
+		if res.Err != nil {
+			c.Violate("C11", "run-failed/"+vn, fmt.Sprintf("%s: run %d (TTL %d..%d) failed next to the others: %v", tag, j, specs[j].MinTTL, specs[j].MaxTTL, res.Err), nil)
+			continue
+		}
+		doc.Traceroute.Runs = append(doc.Traceroute.Runs, *res.Run)
+		for _, h := range res.Run.Hops {
+			if len(h.IPAddress) > 0 {
+				answered++
+				break
+			}
+		}
+	}
+	env.judgeRuns(doc, tag)
+	checkWireIdentifiers(c, env, tag)
+	if answered == k {
+		c.Nontrivial("foreign-reply-burst/" + vn)
+	}
+	c.Count("concurrent_runs", k)
+	c.Count("foreign_replies_in_a_row", (k-1)*longLast)
+	if len(doc.Traceroute.Runs) > 0 {
+		c.Sample(map[string]any{"case": tag, "runs": len(doc.Traceroute.Runs), "first_run": fmtHops(&doc.Traceroute.Runs[0])})
+	}
 }
 
 // runC11Blocks: TCP SYN runs with different first TTLs (full windows, windows starting above 1, single-probe
